@@ -8,7 +8,7 @@
    the columns are modelled in Wordlist/SerializeMsa.v (theorems C13_msa_*, C13_alignments_state_roundtrip below).
    NOT PROVED (tested on the implementation only, see notes/design/C13.md): that the saved object's own msa state
    agrees with its ALIGNMENT column (an invariant of Alignments.align / _msa2col, checked on every generated case by
-   the correspondence bit), the consensus annotation (refuted below), MERGE/COMPLEX lines, string ids. *)
+   the correspondence bit), MERGE/COMPLEX lines, string ids, a consensus longer than the alignment (msa2str raises). *)
 From Coq Require Import QArith Qabs ZArith List Bool Permutation.
 From LV Require Import Wordlist.SerializeStr Wordlist.SerializeStrProofs Wordlist.SerializeNum Wordlist.SerializeNumProofs
   Wordlist.Serialize Wordlist.SerializeProofs Wordlist.SerializeBlockProofs Wordlist.SerializeMsa
@@ -189,10 +189,12 @@ Proof. split; [vm_compute; reflexivity|]. split; [vm_compute; reflexivity|]. app
    guard msa_okb: as many ids and taxa as rows; at least one row; rows of one length >= 1; segments non-empty,
    blank-free, not ending in '.'; taxon names free of TAB/LF/CR and of blanks at the ends, not ending in '.';
    ids <> 0; LOCAL positions strictly increasing and inside the alignment; swaps (a, a+1, a+2) in increasing order,
-   non-overlapping, inside the alignment; no consensus.  The stamp lines are comment lines. *)
+   non-overlapping, inside the alignment; a consensus, if there is one, has one segment per column, and its segments
+   are segments in the above sense without double quote, without '>' and without '-' inside a longer segment.
+   The stamp lines are comment lines.  (Tag reader as repaired in b56b54e: quoted attribute values may hold blanks.) *)
 Theorem C13_msa_roundtrip : forall stamp m, msa_okb m = true -> Forall (fun l => starts 35 l = true) stamp ->
   read_msa_body (msa_body stamp m)
-  = Ok (mk_msa_read (m_ids m) (m_taxa m) (m_alm m) (map degap (m_alm m)) (m_local m) (m_swaps m) None).
+  = Ok (mk_msa_read (m_ids m) (m_taxa m) (m_alm m) (map degap (m_alm m)) (m_local m) (m_swaps m) (m_cons m)).
 Proof. exact msa_body_roundtrip. Qed.
 Print Assumptions C13_msa_roundtrip.
 
@@ -216,28 +218,31 @@ Print Assumptions C13_aligned_file_roundtrip.
 Definition ex_msa : msa :=
   mk_msa [2; 1; 3] [[69; 110; 103]; [71; 101; 114; 109; 97; 110; 46; 65]; [82; 117]]
          [[[119]; [111]; [108]; [45]; [100]]; [[119]; [97]; [108]; [45]; [100]]; [[118]; [45]; [108]; [97]; [100]]]
-         [0%nat; 4%nat] [(1%nat, 2%nat, 3%nat)] None.
+         [0%nat; 4%nat] [(1%nat, 2%nat, 3%nat)] (Some [[119]; [111]; [108]; [45]; [100]]).
 Example C13_msa_guard_inhabited :
   msa_okb ex_msa = true /\ ref_ok c_cogid
   /\ msa_body [] ex_msa
      = [[35]; [48; 9; 67; 79; 76; 85; 77; 78; 73; 68; 9; 49; 9; 50; 9; 51; 9; 52; 9; 53]; [35];
         [48; 9; 76; 79; 67; 65; 76; 46; 46; 46; 9; 42; 9; 46; 9; 46; 9; 46; 9; 42];
-        [48; 9; 67; 82; 79; 83; 83; 69; 68; 46; 9; 46; 9; 43; 9; 45; 9; 43; 9; 46]; [35];
+        [48; 9; 67; 82; 79; 83; 83; 69; 68; 46; 9; 46; 9; 43; 9; 45; 9; 43; 9; 46];
+        [48; 9; 67; 79; 78; 83; 69; 78; 83; 85; 83; 9; 119; 9; 111; 9; 108; 9; 45; 9; 100]; [35];
         [50; 9; 69; 110; 103; 46; 46; 46; 46; 46; 9; 119; 9; 111; 9; 108; 9; 45; 9; 100];
         [49; 9; 71; 101; 114; 109; 97; 110; 46; 65; 9; 119; 9; 97; 9; 108; 9; 45; 9; 100];
         [51; 9; 82; 117; 46; 46; 46; 46; 46; 46; 9; 118; 9; 45; 9; 108; 9; 97; 9; 100]].
 Proof. split; [vm_compute; reflexivity|]. split; [repeat split; intros I; cbn in I; tauto || (repeat (destruct I as [I|I]; [discriminate I|]); exact I)|vm_compute; reflexivity]. Qed.
 
-(* the guards are needed.  A consensus of two segments is written into the tag as consensus="a b": the tag no longer
-   splits into key=value pieces and read_qlc raises (ValueError) - the file cannot be loaded at all. *)
-Theorem C13_msa_consensus_refuted : exists m,
+(* the guards are needed.  msa2str pads the CONSENSUS line to the width of the alignment; a consensus with fewer
+   segments than columns (get_consensus(gaps=False) when a column is mostly gaps) comes back with '' appended *)
+Theorem C13_msa_consensus_padding_refuted : exists m r,
   msa_okb (mk_msa (m_ids m) (m_taxa m) (m_alm m) (m_local m) (m_swaps m) None) = true
-  /\ read_msa_section (msa_section c_cogid [(1, [], m)]) = Err.
+  /\ m_cons m = Some [[104]; [97]]
+  /\ read_msa_section (msa_section c_cogid [(1, [], m)]) = Ok [(c_cogid, 1, r)]
+  /\ r_cons r = Some [[104]; [97]; []].
 Proof.
-  exists (mk_msa [2; 1] [[65]; [66]] [[[104]; [97]]; [[104]; [111]]] [] [] (Some [[104]; [97]])).
-  split; vm_compute; reflexivity.
+  exists (mk_msa [2; 1] [[65]; [66]] [[[104]; [97]; [45]]; [[104]; [111]; [116]]] [] [] (Some [[104]; [97]])).
+  eexists. split; [vm_compute; reflexivity|]. split; [reflexivity|]. split; vm_compute; reflexivity.
 Qed.
-Print Assumptions C13_msa_consensus_refuted.
+Print Assumptions C13_msa_consensus_padding_refuted.
 
 (* a taxon name ending in '.' comes back without the dots (rstrip('.') on the dot-padded name) *)
 Theorem C13_msa_taxon_dot_refuted : exists m r,
